@@ -464,7 +464,7 @@ func (g *exGen) strAtom() *ex {
 	case 1:
 		return &ex{op: "var", name: "e"}
 	}
-	return &ex{op: "str", s: g.rg.pick([]string{"a", "b", "ab", "", "x y"})}
+	return &ex{op: "str", s: g.rg.pick([]string{"a", "b", "ab", "", "x y", "+", "-", "*", "and", "not", "in", "==", "(", "|", "1", "-1"})}
 }
 
 func (g *exGen) num(d int) *ex {
